@@ -29,7 +29,7 @@ type fataler interface {
 
 // ---------- reference: direct restatement of the property
 
-// refPosition returns line, column, the runes of the physical line (up to \n, \r or the end) counted from the logical
+// refPosition returns line, column, the runes of the line (up to \n, \r, U+2028, U+2029 or the end) counted from the
 // line start, and whether the offset character exists on that line.
 func refPosition(text []byte, offset int) (line, col int, lineRunes []rune) {
 	if offset < 0 {
@@ -61,7 +61,7 @@ func refPosition(text []byte, offset int) (line, col int, lineRunes []rune) {
 	}
 	col = utf8.RuneCount(text[lineStart:i]) + 1
 	end := i
-	for end < len(text) && text[end] != '\n' && text[end] != '\r' {
+	for end < len(text) && text[end] != '\n' && text[end] != '\r' && !bytes.HasPrefix(text[end:], []byte("\u2028")) && !bytes.HasPrefix(text[end:], []byte("\u2029")) {
 		end++
 	}
 	lineRunes = []rune(string(text[lineStart:end]))
